@@ -219,3 +219,218 @@ c.ens("returns-the-frames-it-collected", lambda S_: And(S_.is_fresh(S_.new.lget(
       props=["C02"])
 
 
+
+
+# =============================================================================== watches / captures
+def trigger_cache(h, actx):
+    """The identity cache of the action (= of the snapshot it builds)."""
+    return h.f(actx, "var_cache")
+
+
+WATCH_RESULT = TUPLE(VAL, VAL, VAL)
+
+c = contract(AC, "ActionContext.eval_watch", ["C02", "C05", "C06", "C10", "C16"])
+c.param("self", OBJ("ActionContext", subclasses=["SnapshotActionContext", "LogActionContext", "MetricActionContext",
+                                                 "SpanActionContext", "NoActionContext"]))
+c.param("watch", STR).param("source", STR)
+c.result = WATCH_RESULT
+c.logged = "eval_watch"
+c.host_ops_exc_base = "BaseException"
+c.modifies = lambda S_: [("all",)]
+# an expression (or its value) that fails yields an error result for that expression only: nothing escapes
+c.sig_props = ["C06", "C10"]
+c.ens("watch-result-names-the-expression", lambda S_: And(
+    S_.is_fresh(S_.new.lget(S_.result, 0), "WatchResult"),
+    S_.new.f(S_.new.lget(S_.result, 0), "_expression") == S_.a.watch,
+    S_.new.f(S_.new.lget(S_.result, 0), "WatchResult.__source") == S_.a.source,
+    Val.is_VStr(S_.new.lget(S_.result, 2)),
+    Val.is_VRef(S_.new.lget(S_.result, 1)), S_.new.typeof(S_.new.lget(S_.result, 1)) == S_.cid("dict")),
+    props=["C02", "C16"])
+
+
+def _ew_log(S_, kind):
+    if kind != "return":
+        return []
+    ev = S_.calls("evaluate_expression")
+    pv = S_.calls("VariableSetProcessor.process_variable")
+    out = [("expression-evaluated-once-in-the-frame", "LOG",
+            And(z3.BoolVal(len(ev) == 1), ev[0].args[1] == S_.a.watch if ev else z3.BoolVal(False),
+                ev[0].args[0] == S_.old.f(S_.a.self, "trigger_context") if ev else z3.BoolVal(False)), ["C02", "C10", "C16"])]
+    if pv:
+        from pyvc.contract import Heap
+        hp = Heap(None, pv[0].pre)
+        proc = pv[0].args[0]
+        out.append(("value-recorded-under-the-expression-with-this-snapshots-identity-cache", "LOG", And(
+            z3.BoolVal(len(pv) == 1), pv[0].args[1] == S_.a.watch, pv[0].args[2] == ev[0].result if ev else z3.BoolVal(False),
+            hp.f(proc, "VariableSetProcessor.__var_cache") == trigger_cache(S_.old, S_.a.self),
+            hp.dlen(hp.f(proc, "VariableSetProcessor.__var_lookup")) == 0), ["C02", "C07"]))
+    return out
+
+
+c.exit_check(_ew_log)
+
+c = contract(AC, "ActionContext.process_capture_variable", ["C02", "C06", "C15"])
+c.param("self", OBJ("ActionContext", subclasses=["SnapshotActionContext", "LogActionContext", "MetricActionContext",
+                                                 "SpanActionContext", "NoActionContext"]))
+c.param("name", STR).param("variable", ANY)
+c.result = WATCH_RESULT
+c.logged = "process_capture_variable"
+c.host_ops_exc_base = "Exception"
+c.modifies = lambda S_: [("all",)]
+c.sig_props = ["C06"]
+c.ens("capture-result-names-the-event", lambda S_: And(
+    S_.is_fresh(S_.new.lget(S_.result, 0), "WatchResult"),
+    S_.new.f(S_.new.lget(S_.result, 0), "_expression") == S_.a.name,
+    S_.new.f(S_.new.lget(S_.result, 0), "WatchResult.__source") == VStr("CAPTURE")), props=["C02", "C15"])
+c.exit_check(lambda S_, kind: [("captured-value-is-the-value-given", "LOG", And(
+    z3.BoolVal(len(S_.calls("VariableSetProcessor.process_variable")) == 1),
+    S_.calls("VariableSetProcessor.process_variable")[0].args[2] == S_.a.variable), ["C02", "C15"])]
+    if kind == "return" and S_.calls("VariableSetProcessor.process_variable") else [])
+
+
+# ---------------------------------------------------------------- LocationAction.tracepoint
+c = contract(TRIGGER, "LocationAction.tracepoint", ["C02"])
+c.param("self", OBJ("LocationAction"))
+c.req("action-is-attached-to-a-location", lambda S_: S_.I.assume_shape(
+    S_.old.f(S_.a.self, "LocationAction.__location"), OBJ("Trigger")) or z3.BoolVal(True))
+c.result = FRESH("TracePointConfig")
+c.logged = "tracepoint"
+c.modifies = lambda S_: []
+
+
+def _tp_post(S_):
+    """The snapshot names the tracepoint that fired: id, path, line, arguments (without watches), watches."""
+    h, n = S_.old, S_.new
+    a = S_.a.self
+    cfg = h.f(a, "LocationAction.__config")
+    trig = h.f(a, "LocationAction.__location")
+    loc = h.f(trig, "Trigger.__location")
+    r = S_.result
+    args = n.f(r, "_args")
+    is_line = h.typeof(loc) == S_.cid("LineLocation")
+    return And(n.f(r, "_id") == h.f(a, "LocationAction.__id"),
+               n.f(r, "_path") == If(is_line, h.f(loc, "LineLocation.__path"), h.f(loc, "FunctionLocation.__path")),
+               n.f(r, "_line_no") == If(is_line, h.f(loc, "LineLocation.__line"), VInt(-1)),
+               n.f(r, "_watches") == h.dget_or(cfg, "watches", n.f(r, "_watches")),
+               S_.is_fresh(args, "dict"), Not(n.dhas(args, "watches")),
+               *[Implies(h.dhas(cfg, k), And(n.dhas(args, k), n.dget(args, k) == h.dget(cfg, k)))
+                 for k in ("fire_count", "fire_period", "frame_type", "stack_type", "condition", "stage", "span")])
+
+
+c.ens("names-the-tracepoint", _tp_post)
+
+# ---------------------------------------------------------------- SnapshotActionContext._process_action
+c = contract(SA, "SnapshotActionContext._process_action", ["C02", "C06", "C07", "C16"])
+c.param("self", OBJ("SnapshotActionContext"))
+c.result = VAL
+c.host_ops_exc_base = "Exception"
+c.logged = "_process_action"
+c.modifies = lambda S_: [("all",)]
+c.sig("Exception", "log-template-cannot-be-rendered",
+      cond=lambda S_: S_.old.dhas(S_.old.f(S_.old.f(S_.a.self, "location_action"), "LocationAction.__config"), "log_msg"))
+c.sig_props = ["C06"]
+c.max_paths = 600
+# the body beyond the frame collection (watch loop, log rendering, capture) exceeds the solver budget as one
+# unit (DESIGN.md, C02): this contract states obligations on the path prefix up to the call of collect()
+c.stop_after = "collect"
+
+
+def _spa_log(S_, kind):
+    if kind not in ("return", "prefix"):
+        return []
+    from pyvc.contract import Heap
+    h = S_.old
+    me = S_.a.self
+    tctx = h.f(me, "trigger_context")
+    out = []
+    col = S_.calls("collect")
+    tp = S_.calls("tracepoint")
+    att = S_.calls("attach_result")
+    out.append(("one-collection-per-action", "LOG", z3.BoolVal(len(col) == 1), ["C02", "C06"]))
+    if col:
+        hc = Heap(None, col[0].pre)
+        table, cache = col[0].args[1], col[0].args[2]
+        # C06: each snapshot is complete on its own: it starts from an empty variable table and an empty
+        # identity cache (tracepoints sharing a location or trace event do not share or empty one another's)
+        out.append(("snapshot-starts-from-its-own-empty-table-and-cache", "LOG", And(
+            hc.dlen(table) == 0, hc.dlen(hc.f(cache, "VariableCacheProvider.__cache")) == 0,
+            hc.f(hc.f(col[0].args[0], "FrameCollector.__source"), "location_action") == h.f(me, "location_action"),
+            hc.f(col[0].args[0], "FrameCollector.__frame") == h.f(tctx, "TriggerContext.__frame")), ["C06", "C02"]))
+    ws = S_.calls("eval_watch")
+    cfg = h.f(h.f(me, "location_action"), "LocationAction.__config")
+    out.append(("watches-evaluated-as-watches", "LOG",
+                And(*[Or(e.args[2] == VStr("WATCH"), e.args[2] == VStr("LOG")) for e in ws]) if ws else z3.BoolVal(True),
+                ["C02"]))
+    return out
+
+
+c.exit_check(_spa_log)
+
+TCX = "processor/context/trigger_context.py"
+c = contract(TCX, "TriggerContext.attach_result", ["C02"])
+c.param("self", OBJ("TriggerContext")).param("result", VAL)
+c.result = NONE
+c.logged = "attach_result"
+c.modifies = lambda S_: [("list", S_.old.f(S_.a.self, "TriggerContext.__results"))]
+c.ens("appended", lambda S_: And(
+    S_.new.llen(S_.old.f(S_.a.self, "TriggerContext.__results")) == S_.old.llen(S_.old.f(S_.a.self, "TriggerContext.__results")) + 1,
+    S_.new.lget(S_.old.f(S_.a.self, "TriggerContext.__results"), S_.old.llen(S_.old.f(S_.a.self, "TriggerContext.__results"))) == S_.a.result))
+
+# ---------------------------------------------------------------- EventSnapshot.__init__
+ES = "api/tracepoint/eventsnapshot.py"
+c = contract(ES, "EventSnapshot.__init__", ["C02", "C08"])
+c.param("self", OBJ("EventSnapshot", inv=False)).param("tracepoint", VAL).param("ts", VAL).param("resource", VAL)
+c.param("frames", VAL).param("var_lookup", VAL)
+c.result = NONE
+c.logged = "EventSnapshot"
+c.modifies = lambda S_: [("field", S_.a.self, f) for f in ("_id", "_tracepoint", "_var_lookup", "_ts_nanos", "_frames",
+                                                            "_watches", "_attributes", "_duration_nanos", "_resource", "_log")]
+c.sig("BaseException", "resource-merge-failed", cond=lambda S_: Val.is_VNone(S_.a.resource))
+c.ens("fields-are-the-arguments", lambda S_: And(
+    S_.f(S_.a.self, "_tracepoint") == S_.a.tracepoint, S_.f(S_.a.self, "_var_lookup") == S_.a.var_lookup,
+    S_.f(S_.a.self, "_ts_nanos") == S_.a.ts, S_.f(S_.a.self, "_frames") == S_.a.frames,
+    S_.is_fresh(S_.f(S_.a.self, "_watches"), "list"), S_.new.llen(S_.f(S_.a.self, "_watches")) == 0,
+    Val.is_VNone(S_.f(S_.a.self, "_log")), S_.f(S_.a.self, "_duration_nanos") == VInt(0),
+    Val.is_VInt(S_.f(S_.a.self, "_id")), iv(S_.f(S_.a.self, "_id")) >= 0,
+    S_.is_fresh(S_.f(S_.a.self, "_attributes"), "BoundedAttributes")))
+c.coarse = True      # body (BoundedAttributes / Resource.merge) is covered by the C18 contracts
+c.props = []
+
+
+@class_invariant("EventSnapshot")
+def inv_snapshot(S_, s):
+    h = S_.new
+    return And(S_.pre(h.f(s, "_watches"), "list"), h.llen(h.f(s, "_watches")) >= 0,
+               S_.pre(h.f(s, "_var_lookup"), "dict"), h.dlen(h.f(s, "_var_lookup")) >= 0,
+               S_.pre(h.f(s, "_attributes"), "BoundedAttributes"),
+               Val.is_VInt(h.f(s, "_ts_nanos")), Val.is_VInt(h.f(s, "_id")), iv(h.f(s, "_id")) >= 0,
+               h.f(s, "_watches") != h.f(s, "_frames"))
+
+# ---------------------------------------------------------------- EventSnapshot.merge_var_lookup / add_watch_result
+c = contract(ES, "EventSnapshot.merge_var_lookup", ["C07"])
+c.param("self", OBJ("EventSnapshot")).param("lookup", DICT(OBJ("Variable", inv=False)))
+c.req("not-merging-into-itself", lambda S_: S_.a.lookup != S_.old.f(S_.a.self, "_var_lookup"))
+c.result = NONE
+c.logged = "merge_var_lookup"
+c.modifies = lambda S_: [("dict", S_.old.f(S_.a.self, "_var_lookup"))]
+
+
+def _merge_post(S_):
+    """C07: merging keeps every entry the snapshot had and adds every entry of the merged table."""
+    h, n = S_.old, S_.new
+    t = h.f(S_.a.self, "_var_lookup")
+    k = z3.Const("k!mvl", Val)
+    return z3.ForAll([k], And(n.dhas(t, k) == Or(h.dhas(t, k), h.dhas(S_.a.lookup, k)),
+                              n.dget(t, k) == If(h.dhas(S_.a.lookup, k), h.dget(S_.a.lookup, k), h.dget(t, k))))
+
+
+c.ens("union-with-the-merged-table-winning", _merge_post)
+
+c = contract(ES, "EventSnapshot.add_watch_result", ["C02"])
+c.param("self", OBJ("EventSnapshot")).param("watch_result", VAL)
+c.result = NONE
+c.logged = "add_watch_result"
+c.modifies = lambda S_: [("list", S_.old.f(S_.a.self, "_watches"))]
+c.ens("appended-in-order", lambda S_: And(
+    S_.new.llen(S_.old.f(S_.a.self, "_watches")) == S_.old.llen(S_.old.f(S_.a.self, "_watches")) + 1,
+    S_.new.lget(S_.old.f(S_.a.self, "_watches"), S_.old.llen(S_.old.f(S_.a.self, "_watches"))) == S_.a.watch_result))
